@@ -624,6 +624,40 @@ func rawRule(c *Ctx, r *Report, rule string) {
 		}
 	}
 	r.floor(rule, "non-constant string writes in the value writer", n, 6)
+	// a string of the value handed, together with the writer, to any printing helper other than the escaping
+	// writer: the helper's layout (block strings with added indentation, raw text) is not what the value reader
+	// reads back
+	ws := c.fn("writeString")
+	for _, name := range []string{"writeValue", "writeMap", "writeMap$1"} {
+		fn := c.fn(name)
+		if fn == nil {
+			continue
+		}
+		k := 0
+		for _, ci := range callsIn(fn) {
+			cal := ci.Common().StaticCallee()
+			if cal == nil || !c.inPkg(cal) || cal == ws || cal.Name() == "writeValue" || cal.Name() == "writeMap" {
+				continue
+			}
+			hasW, strArg := false, ssa.Value(nil)
+			for _, a := range ci.Common().Args {
+				if n, ok := a.Type().(*types.Named); ok && n.Obj().Name() == "Writer" {
+					hasW = true
+				}
+				if bt, ok := a.Type().Underlying().(*types.Basic); ok && bt.Info()&types.IsString != 0 {
+					if _, isC := a.(*ssa.Const); !isC {
+						strArg = a
+					}
+				}
+			}
+			if !hasW || strArg == nil {
+				continue
+			}
+			k++
+			r.check(rule, fmt.Sprintf("%s: string handed to printing helper #%d (%s) goes through the escaping writer", name, k, cal.Name()), ci.Pos(), false,
+				"a string of the value is written by "+cal.Name()+" instead of the escaping string writer: whatever layout that helper produces (a block string with indentation added, raw text) is read back verbatim by the value reader, so the round trip changes the string")
+		}
+	}
 }
 
 // sdlGuarded: the block is reached only with the sdl flag (parameter, or the closure's captured copy) set.
